@@ -35,6 +35,7 @@ type projection struct {
 	keep func(path string, i, n int) bool
 	perm bool
 	add  bool
+	ptr  bool // records inside the outer record are held by pointer
 }
 
 // goTypeProjected is goTypeFor for records with fields dropped / permuted / added at every depth.
@@ -82,6 +83,9 @@ func goTypeProjected(s node, v goVariant, pr projection, path string, rngPerm fu
 			}
 			fields = append(fields, private...)
 		}
+		if pr.ptr && strings.Count(path, "/") > 1 {
+			return reflect.PointerTo(reflect.StructOf(fields)), nil
+		}
 		return reflect.StructOf(fields), nil
 	case "array":
 		e, err := goTypeProjected(kids[0], v, pr, path+"/i", rngPerm)
@@ -105,6 +109,9 @@ func goTypeProjected(s node, v goVariant, pr projection, path string, rngPerm fu
 				t, err := goTypeProjected(nn, v, pr, path+"/u", rngPerm)
 				if err != nil {
 					return nil, err
+				}
+				if t.Kind() == reflect.Pointer {
+					return t, nil
 				}
 				return reflect.PointerTo(t), nil
 			}
@@ -669,6 +676,7 @@ func driveVectors(c *driverCtx, prop string) error {
 			for _, pr := range []projection{
 				{name: "even-fields", keep: func(_ string, i, _ int) bool { return i%2 == 0 }},
 				{name: "odd-fields", keep: func(_ string, i, _ int) bool { return i%2 == 1 }},
+				{name: "inner-odd-fields", keep: func(p string, i, _ int) bool { return strings.Count(p, "/") <= 1 || i%2 == 1 }},
 			} {
 				if t, err := goTypeProjected(top, goVariant{}, pr, "", func(n int) []int { return c.rng.Perm(n) }); err == nil {
 					targets = append(targets, tgt{pr.name, t})
@@ -684,6 +692,15 @@ func driveVectors(c *driverCtx, prop string) error {
 				{name: "odd", keep: func(_ string, i, _ int) bool { return i%2 == 1 }, add: true},
 				{name: "last", keep: func(_ string, i, n int) bool { return i == n-1 }},
 				{name: "first", keep: func(_ string, i, _ int) bool { return i == 0 }},
+				// the outer record complete, the records inside it cut down: to nothing, to nothing but fields the file
+				// lacks, to every other field behind leading extras (so nothing nested sits at offset 0)
+				{name: "outer-only", keep: func(p string, _, _ int) bool { return strings.Count(p, "/") <= 1 }},
+				{name: "outer-only+extra", keep: func(p string, _, _ int) bool { return strings.Count(p, "/") <= 1 }, add: true},
+				{name: "inner-even+extra", keep: func(p string, i, _ int) bool { return strings.Count(p, "/") <= 1 || i%2 == 0 }, add: true},
+				{name: "inner-odd+extra", keep: func(p string, i, _ int) bool { return strings.Count(p, "/") <= 1 || i%2 == 1 }, add: true},
+				{name: "outer-only/ptr", keep: func(p string, _, _ int) bool { return strings.Count(p, "/") <= 1 }, ptr: true},
+				{name: "outer-only+extra/ptr", keep: func(p string, _, _ int) bool { return strings.Count(p, "/") <= 1 }, add: true, ptr: true},
+				{name: "inner-even/ptr", keep: func(p string, i, _ int) bool { return strings.Count(p, "/") <= 1 || i%2 == 0 }, ptr: true},
 			}
 			for k := 0; k < c.pick(2, 30); k++ {
 				mask := c.rng.Uint64()
